@@ -1039,18 +1039,26 @@ func runHandoff(c *kit.Case) {
 	entered0 := make(chan struct{})
 	waitReturned := make(chan struct{})
 	var once0 sync.Once
+	var thrBatches atomic.Int64
 	h.onExec = func(b []*tk) {
-		if held && b[0].id == 0 {
-			once0.Do(func() { close(entered0) })
-			select {
-			case <-release0:
-			case <-time.After(watchdog):
-			}
+		if b[0].via != "threshold-add" {
+			return // a tick flushed a few tasks before the threshold was reached: not the batch we place
 		}
-		if holdSecond && b[0].id == thr {
-			select {
-			case <-waitReturned:
-			case <-time.After(30 * time.Millisecond): // patience: on a correct executor the Wait is waiting for us
+		switch thrBatches.Add(1) {
+		case 1:
+			if held {
+				once0.Do(func() { close(entered0) })
+				select {
+				case <-release0:
+				case <-time.After(watchdog):
+				}
+			}
+		case 2:
+			if holdSecond {
+				select {
+				case <-waitReturned:
+				case <-time.After(30 * time.Millisecond): // patience: on a correct executor the Wait is waiting for us
+				}
 			}
 		}
 	}
@@ -1063,10 +1071,8 @@ func runHandoff(c *kit.Case) {
 			waitFlushes.Add(1)
 		}
 	}
-	tasks := make([]*tk, 2*thr)
-	for i := range tasks {
-		tasks[i] = &tk{id: i}
-	}
+	nextID := 0
+	newTask := func() *tk { t := &tk{id: nextID}; nextID++; return t }
 	main := h.actor()
 	fail := func(what string) {
 		once0.Do(func() { close(entered0) })
@@ -1077,20 +1083,27 @@ func runHandoff(c *kit.Case) {
 		}
 		reportBlocked(c, h, desc, what)
 	}
-	// batch 0 through the threshold; the flusher is then inside Execute(batch 0)
-	for i := 0; i < thr; i++ {
-		doAdd(main, tg, tasks[i])
+	// a first batch through the threshold (a tick may flush a partial batch in between,
+	// so add until one left that way); the flusher is then inside Execute of it
+	for i := 0; handoffs.Load() < 1; i++ {
+		if i > 50*thr {
+			fail("no batch ever reached the threshold")
+			return
+		}
+		doAdd(main, tg, newTask())
 	}
 	if held && !waitChan(entered0, watchdog) {
 		fail("Execute of the first batch was never entered")
 		return
 	}
-	// thr-1 tasks whose Add returns, then the Add that reaches the threshold
-	for i := thr; i < 2*thr-1; i++ {
-		doAdd(main, tg, tasks[i])
+	// the container is empty and (held) the flusher cannot flush: thr-1 tasks whose Add
+	// returns, then the Add that reaches the threshold
+	for i := 0; i < thr-1; i++ {
+		doAdd(main, tg, newTask())
 	}
+	last := newTask()
 	g := h.actor()
-	gDone := async(func() { doAdd(g, tg, tasks[2*thr-1]) })
+	gDone := async(func() { doAdd(g, tg, last) })
 	if held {
 		// the batch has left the container (RemoveAll under the lock, called by that Add)
 		if !waitUntil(func() bool { return handoffs.Load() >= 2 }, watchdog) {
@@ -1472,13 +1485,13 @@ func TestVerifC11(t *testing.T) {
 	lab := func(fn func(c *kit.Case)) func(c *kit.Case) {
 		return func(c *kit.Case) { kit.WithLabel(c.ID, func() { fn(c) }) }
 	}
-	kit.Run(t, "C11", "handoff", kit.N(240, 4000), lab(runHandoff))
-	kit.Run(t, "C11", "quit-race", kit.N(160, 3000), lab(runQuitRace))
-	kit.Run(t, "C11", "idle-restart", kit.N(160, 3000), lab(runIdleRestart))
-	kit.Run(t, "C11", "random", kit.N(2400, 80000), lab(func(c *kit.Case) { runRandom(c, "periodical") }))
-	kit.Run(t, "C11", "random-bulk", kit.N(500, 12000), lab(func(c *kit.Case) { runRandom(c, "bulk") }))
-	kit.Run(t, "C11", "random-chunk", kit.N(500, 12000), lab(func(c *kit.Case) { runRandom(c, "chunk") }))
-	kit.Run(t, "C11", "raw-stress", kit.N(160, 3000), lab(runRaw))
+	kit.Run(t, "C11", "handoff", kit.N(800, 12000), lab(runHandoff))
+	kit.Run(t, "C11", "quit-race", kit.N(600, 9000), lab(runQuitRace))
+	kit.Run(t, "C11", "idle-restart", kit.N(600, 9000), lab(runIdleRestart))
+	kit.Run(t, "C11", "random", kit.N(12000, 200000), lab(func(c *kit.Case) { runRandom(c, "periodical") }))
+	kit.Run(t, "C11", "random-bulk", kit.N(2000, 30000), lab(func(c *kit.Case) { runRandom(c, "bulk") }))
+	kit.Run(t, "C11", "random-chunk", kit.N(2000, 30000), lab(func(c *kit.Case) { runRandom(c, "chunk") }))
+	kit.Run(t, "C11", "raw-stress", kit.N(400, 6000), lab(runRaw))
 	kit.Run(t, "C11", "sqlx-bulkinserter", kit.N(8, 64), lab(runSQL))
 	kit.End()
 }
